@@ -489,7 +489,9 @@ fixed_cases(int tier)
           // work bound: pairs ~ (ndet^2) * (rings/stride)^2 * tof
           const double ntof = tofmash > 0 ? sc->get_max_num_timing_poss() + 3 : 1;
           int ring_stride = 1;
-          const double budget = tier == 1 ? 4e8 : 6e7;
+          // memory: the fibre sets cost ~40 bytes per enumerated (detector pair, ring pair, TOF index); 16 thorough workers x 7e7 entries stay below ~45 GB
+          // (4e8 made single workers grow to 8-15 GB and the kernel killed them)
+          const double budget = tier == 1 ? 7e7 : 6e7;
           while (double(ndet) * ndet * std::ceil(double(rings) / ring_stride) * std::ceil(double(rings) / ring_stride) * ntof > budget && ring_stride < rings)
             ++ring_stride;
           c["pdi"] = { { "span", span },
